@@ -131,6 +131,10 @@ let pool_replay (line : string) : string =
   let pending_spawn = ref [] in
   let half_done : (int, unit) Hashtbl.t = Hashtbl.create 8 in
   let rets_seen = ref 0 in
+  (* refused thread creation: state before the broadcast began, spawns that succeeded in it *)
+  let pre : PoolM.state option ref = ref None in
+  let spawned_ok = ref 0 in
+  let aborted = ref false in
   let exception Reject of string in
   let step l why = match PoolM.step cfg !s l with
     | Some s' -> s := s'
@@ -154,14 +158,64 @@ let pool_replay (line : string) : string =
             | PoolM.CIdle, m :: _ when int_of_nat m = int_of_string n -> ()
             | _ -> raise (Reject "broadcast not expected here"))
          | ["N"; v] ->
+           pre := Some !s; spawned_ok := 0; aborted := false;
            let before = List.length !s.PoolM.ws in
            step (PoolM.EBegin (nat_of_int (int_of_string v))) "begin";
            let after = List.length !s.PoolM.ws in
            pending_spawn := List.init (after - before) (fun i -> before + i + 1)
          | ["S"; k] ->
            (match !pending_spawn with
-            | k' :: rest when k' = int_of_string k -> pending_spawn := rest
+            | k' :: rest when k' = int_of_string k -> pending_spawn := rest; incr spawned_ok
             | _ -> raise (Reject "spawn not expected (only the missing threads are spawned)"))
+         | ["F"; _] ->
+           (* A thread creation is refused: [spawn]'s `expect` panics under the lock, before any send.  The
+              transition system has no such step.  Sequence-level treatment: the aborted broadcast is replaced by
+              a successful broadcast on exactly the threads that exist afterwards (same pool state for what
+              follows, same broadcast numbering); the aborted broadcast itself is only checked to have handed
+              out nothing and to leave n+1 empty slots. *)
+           (match !pre, !s.PoolM.cst with
+            | Some p, PoolM.CSend (k, _) when int_of_nat k = 1 && !pending_spawn <> [] && not !aborted ->
+              (* undo EBegin on the CURRENT state: only late unparks of earlier broadcasts can have happened since *)
+              let rec firstn k l = if k = 0 then [] else match l with [] -> [] | x :: t -> x :: firstn (k - 1) t in
+              let len = List.length p.PoolM.ws in
+              s := { !s with PoolM.script = p.PoolM.script; PoolM.cst = PoolM.CIdle;
+                             PoolM.ws = firstn len !s.PoolM.ws; PoolM.wviews = firstn len !s.PoolM.wviews;
+                             PoolM.rc = p.PoolM.rc; PoolM.alive = false; PoolM.cur = p.PoolM.cur;
+                             PoolM.slots = p.PoolM.slots; PoolM.lview = p.PoolM.lview };
+              pending_spawn := []; aborted := true
+            | _ -> raise (Reject "refused thread creation not expected here"))
+         | ["Y"; sl] ->
+           if not !aborted then raise (Reject "abort without refused thread creation");
+           aborted := false;
+           (match !s.PoolM.script with
+            | n :: rest ->
+              let n = int_of_nat n in
+              if sl <> String.concat "," (List.init (n + 1) (fun _ -> "-")) then raise (Reject "slots of the aborted broadcast not empty");
+              let before = !s.PoolM.ws in
+              let w = List.length before + !spawned_ok in
+              let saved_token = !s.PoolM.token in
+              (* workers that still owe an unpark from an earlier broadcast take part in the stand-in as idle
+                 workers and get their state back afterwards *)
+              let idle = List.map (fun x -> match x with PoolM.WUnpark _ -> PoolM.WIdle | x -> x) before in
+              s := { !s with PoolM.script = nat_of_int w :: rest; PoolM.ws = idle };
+              let st l = step l "stand-in broadcast for the aborted one" in
+              st (PoolM.EBegin (nat_of_int w));
+              for k = 1 to w do st (PoolM.ESend (nat_of_int k)) done;
+              st (PoolM.ERun0 false);
+              if w > 0 then begin
+                st PoolM.ELoad;
+                for k = 1 to w do
+                  st (PoolM.EWRun (nat_of_int k, false)); st (PoolM.EWClone (nat_of_int k)); st (PoolM.EWDec (nat_of_int k))
+                done;
+                st (PoolM.EWUnpark (nat_of_int w)); st PoolM.EPark
+              end;
+              st PoolM.ELoad;
+              if !s.PoolM.cst <> PoolM.CIdle then raise (Reject "stand-in broadcast did not return");
+              let ws' = List.mapi (fun i x -> match List.nth_opt before i with
+                  | Some (PoolM.WUnpark b) -> PoolM.WUnpark b | _ -> x) !s.PoolM.ws in
+              s := { !s with PoolM.ws = ws'; PoolM.token = saved_token };
+              incr rets_seen
+            | [] -> raise (Reject "abort without broadcast"))
          | ["Q"; c] -> rendezvous (int_of_string c)
          | ["R"; t; c; "1"] ->
            if t <> c then raise (Reject "task received by the wrong thread");
@@ -216,6 +270,9 @@ let ev_of_token (tok : string) : PoolMon.ev =
     | ["N"; v] -> PoolMon.VNew (n v)
     | ["S"; k] -> PoolMon.VSpawn (n k)
     | ["Q"; c] -> PoolMon.VSent (n c)
+    | ["F"; _] -> PoolMon.VSpawnFail
+    | ["Y"; sl] -> PoolMon.VAbortEnd (slots_of_string sl)
+    | ["Y"] -> PoolMon.VAbortEnd []
     | ["R"; t; c; "1"] -> PoolMon.VRecv (n t, n c, true)
     | ["R"; t; c; "0"] -> PoolMon.VRecv (n t, n c, false)
     | ["R"; t; _; "x"] -> PoolMon.VDead (n t)
